@@ -599,10 +599,14 @@ func (self *Core) runInstruction(instruction compiler.Instruction) *value.VmInte
 			return i
 		}
 
+		// The position of the throw is the one of this instruction, not of the next one
+		// (which belongs to the enclosing construct if the throw is not a statement of its own).
+		span := self.parent.SourceMap(*self.callFrame())
+
 		self.callFrame().InstructionPointer++
 
 		return value.NewVMThrowInterrupt(
-			self.parent.SourceMap(*self.callFrame()),
+			span,
 			display,
 		)
 	case compiler.Opcode_SetTryLabel:
